@@ -1113,6 +1113,11 @@ orc_program_append_ds_str (OrcProgram *program, const char *name,
   }
   insn->dest_args[0] = orc_program_find_var_by_name (program, arg1);
   insn->src_args[0] = orc_program_find_var_by_name (program, arg2);
+  if (insn->dest_args[0] < 0 || insn->src_args[0] < 0) {
+    ORC_ERROR ("bad operand for opcode: %s", name);
+    orc_program_set_error (program, "bad operand");
+    return;
+  }
   
   program->n_insns++;
 }
@@ -1139,6 +1144,12 @@ orc_program_append_dds_str (OrcProgram *program, const char *name,
   insn->dest_args[0] = orc_program_find_var_by_name (program, arg1);
   insn->dest_args[1] = orc_program_find_var_by_name (program, arg2);
   insn->src_args[0] = orc_program_find_var_by_name (program, arg3);
+  if (insn->dest_args[0] < 0 || insn->dest_args[1] < 0 ||
+      insn->src_args[0] < 0) {
+    ORC_ERROR ("bad operand for opcode: %s", name);
+    orc_program_set_error (program, "bad operand");
+    return;
+  }
   
   program->n_insns++;
 }
